@@ -7,6 +7,8 @@
 //	        member of another format at every position) x file names (every supported extension in
 //	        lower / upper / mixed case, none, unsupported) x detection entry points and terminal
 //	        operations of tabula.Open
+//	replace same path, content replaced: ordered pairs of contents x file names, two opens on one
+//	        path inside one case (replace.go)
 //	drm     EPUBs x every subset of five manifest items listed in META-INF/encryption.xml x
 //	        algorithm x CipherReference spelling x rights.xml x two entry points (drm.go)
 //
@@ -33,12 +35,29 @@ func main() { harness.Main("C20", "exploration", run) }
 
 var scratchDir string
 
+var caseSeq int
+
+// casePath returns <scratch>/<fresh directory>/<name>: every case works on a path that no other
+// case of this process has used or will use, so path-keyed state inside tabula can never carry a
+// verdict from one case into another (histories on ONE path are the business of the "replace"
+// space, where the whole history lives inside the case). done removes the directory.
+func casePath(name string) (path string, done func()) {
+	caseSeq++
+	dir := filepath.Join(scratchDir, fmt.Sprintf("c%d", caseSeq))
+	if err := os.MkdirAll(dir, 0o755); err != nil {
+		panic(err)
+	}
+	return filepath.Join(dir, name), func() { os.RemoveAll(dir) }
+}
+
 func run(e *harness.Env) {
 	e.Rule = "full product per space. admit: 20 valid documents (2 PDF layouts; DOCX, XLSX, PPTX each with relative and absolute officeDocument target; ODT with and without mimetype; EPUB 2/3; 8 HTML/XHTML openings) x " +
 		"{all permutations of the <=5 core ZIP members (mimetype fixed first where present), remaining members after/before} x " +
 		"{no decoy, one characteristic member of every other format (13 kinds) at every position, host inventory (content types / ODF manifest) updated} x " +
 		"{DetectFromReader, DetectFromMagic, Open(name).Text() under the 8 supported extensions + own extension upper/mixed case + no extension}; " +
 		"base packaging additionally x 29 names (8 extensions x lower/upper/mixed, none, 4 unsupported) x {Text, ToMarkdown, Document, PageCount}; names: format.Detect on 29 names x 4 stems x 5 directories. " +
+		"replace: every ordered pair (A,B) over {one document per format, plain text, absent file} x the 29 names: write A, open, overwrite with B, open again on ONE path; second verdict = statement verdict for B = verdict of B at an unused path. " +
+		"every other case works on a path that is unique in the process. " +
 		"drm: EPUB with 2 spine documents (one without file extension) + css + font + image, every assignment of {plain, obfuscated, encrypted} to the 5 items (3^5, includes all 2^5 subsets per algorithm) x " +
 		"obfuscation URI {IDPF, Adobe} x cipher URI {AES-128-CBC, AES-256-CBC, AES-256-GCM, unknown} x 5 CipherReference spellings x rights.xml x encryption.xml style x OPF location x entry order x META-INF position x {tabula.Open, epubdoc.OpenReader}. " +
 		"quick: decoys under every 10th member order + the reverse order, abs-root-target twins lightly, mixed obfuscated+encrypted assignments with one algorithm pair, 8 of 24 encryption.xml/OPF variants; thorough: everything. " +
@@ -53,6 +72,7 @@ func run(e *harness.Env) {
 	defer os.RemoveAll(scratchDir)
 	names(e)
 	admit(e)
+	replace(e)
 	drm(e)
 }
 
@@ -363,11 +383,11 @@ func openCase(e *harness.Env, d *doc, pre string, n fname, op string, content fu
 	}
 	data := content()
 	e.Begin(desc)
-	path := filepath.Join(scratchDir, "doc"+n.ext)
+	path, done := casePath("doc" + n.ext)
+	defer done()
 	if err := os.WriteFile(path, data, 0o644); err != nil {
 		panic(err)
 	}
-	defer os.Remove(path)
 	var out string
 	var err error
 	textual := op == "text" || op == "markdown"
